@@ -32,11 +32,11 @@ type Spec struct {
 	Code   int         `json:"code,omitempty"`   // explicit WriteHeader code (0: none)
 	Writes []Write     `json:"writes,omitempty"` // body writes; bytes are lib.DetBody(Tag, total)[off:off+n]
 	Tag    uint64      `json:"tag,omitempty"`
-	Text   string      `json:"text,omitempty"` // literal body instead of DetBody (written in the Writes split if given, else once)
-	Rep    int         `json:"rep,omitempty"`  // with Text: the body is Text repeated Rep times (large bodies without large headers)
-	Ret    int         `json:"ret,omitempty"`  // returned status
-	Err    string      `json:"err,omitempty"`  // returned error text ("" = nil)
-	Panic  string      `json:"panic,omitempty"` // "before" | "after" | ""
+	Text   string      `json:"text,omitempty"`  // literal body instead of DetBody (written in the Writes split if given, else once)
+	Rep    int         `json:"rep,omitempty"`   // with Text: the body is Text repeated Rep times (large bodies without large headers)
+	Ret    int         `json:"ret,omitempty"`   // returned status
+	Err    string      `json:"err,omitempty"`   // returned error text ("" = nil)
+	Panic  string      `json:"panic,omitempty"` // "before" | "abort-before" | "after" | ""
 	// ReadBody > 0: read the request body with that read size and report.
 	ReadBody int `json:"readbody,omitempty"`
 }
@@ -159,6 +159,10 @@ func (h handler) ServeHTTP(w http.ResponseWriter, r *http.Request) (int, error) 
 	}
 	if s.Panic == "before" {
 		panic("verifprobe: scripted panic before writing")
+	}
+	if s.Panic == "abort-before" {
+		// the value net/http and httputil.ReverseProxy use to abort a handler
+		panic(http.ErrAbortHandler)
 	}
 	for _, kv := range s.Hdr {
 		w.Header().Add(kv[0], kv[1])
